@@ -536,7 +536,12 @@ class TextXVisitor(RRELVisitor):
                 # Add inherited classes to this rule's meta-class. This is done
                 # in each pass as, with circular rule references, a referenced
                 # rule may turn out to be abstract only in a later pass.
-                inh_by_len = len(cls._tx_inh_by)
+                # The list is built anew in each pass: a class added while a
+                # referenced rule was not yet known to be abstract must not
+                # stay once that rule is found to be the first non-match
+                # reference of its sequence.
+                inh_by_before = list(cls._tx_inh_by)
+                del cls._tx_inh_by[:]
                 if rule.rule_name and cls.__name__ != rule.rule_name:
                     if rule._tx_class not in cls._tx_inh_by:
                         cls._tx_inh_by.append(rule._tx_class)
@@ -564,7 +569,7 @@ class TextXVisitor(RRELVisitor):
                         return False
 
                     _add_reffered_classes(rule, cls._tx_inh_by, start=True)
-                if len(cls._tx_inh_by) != inh_by_len:
+                if cls._tx_inh_by != inh_by_before:
                     has_change[0] = True
 
         # Multi-pass rule type resolving to support circular rule references.
